@@ -173,8 +173,12 @@ pub struct Inner {
     pub pup_drivers: Vec<Option<Arc<dyn PupDriver>>>,
 }
 
+pub type AttachHook = Arc<dyn Fn(usize) + Send + Sync>;
+
 pub struct World {
     inner: Mutex<Inner>,
+    /// subscribes probe `s` to the root (for probes that subscribe from inside a handler)
+    attach_hook: Mutex<Option<AttachHook>>,
     /// run at the end of a scenario: break the reference cycles between harness actors and crate
     /// closures so that a campaign of millions of scenarios does not accumulate memory
     cleanups: Mutex<Vec<Box<dyn FnOnce() + Send>>>,
@@ -183,6 +187,7 @@ pub struct World {
 impl World {
     pub fn new(sc: &Scenario) -> Arc<World> {
         Arc::new(World {
+            attach_hook: Mutex::new(None),
             cleanups: Mutex::new(vec![]),
             inner: Mutex::new(Inner {
                 log: Vec::with_capacity(256),
@@ -261,11 +266,46 @@ impl World {
             Message::Terminate => M::Terminate,
         }
     }
+    pub fn set_attach_hook(&self, h: Option<AttachHook>) {
+        *self.attach_hook.lock().unwrap_or_else(|e| e.into_inner()) = h;
+    }
+    /// attach probe `s` now if it is free (never attached, or its last subscription is over)
+    pub fn attach_if_free(&self, s: usize) -> bool {
+        let free = {
+            let g = self.lock();
+            match g.sinks.get(s) {
+                None => false,
+                // at most a handful of subscriptions per probe: in-handler attaches can otherwise chain for ever
+                Some(v) if v.len() >= 5 => false,
+                Some(v) => match v.last() {
+                    None => true,
+                    Some(st) => st.sent_terminal || st.got_terminal,
+                },
+            }
+        };
+        let hook = self.attach_hook.lock().unwrap_or_else(|e| e.into_inner()).clone();
+        match (free, hook) {
+            (true, Some(h)) => {
+                let prev = {
+                    let mut g = self.lock();
+                    std::mem::replace(&mut g.cur_tag, s as u8)
+                };
+                h(s);
+                self.lock().cur_tag = prev;
+                true
+            }
+            _ => {
+                self.lock().skipped_by_guard += 1;
+                false
+            }
+        }
+    }
     pub fn on_finish(&self, f: Box<dyn FnOnce() + Send>) {
         self.cleanups.lock().unwrap_or_else(|e| e.into_inner()).push(f);
     }
     /// ends the scenario: releases what the actors hold and hands out the history
     pub fn into_history(&self) -> History {
+        self.set_attach_hook(None);
         let cl: Vec<_> = std::mem::take(&mut *self.cleanups.lock().unwrap_or_else(|e| e.into_inner()));
         for f in cl {
             f();
@@ -637,6 +677,29 @@ impl<T: ToVal + Send + Sync + 'static> Probe<T> {
                             d.act(i, PAct::Emit);
                             me.world.lock().cur_tag = prev;
                         }
+                    }
+                    React::DisposeOther | React::Switch => {
+                        let (other, n) = {
+                            let g = me.world.lock();
+                            let n = g.drivers.len();
+                            (if n >= 2 { g.drivers[(me.id as usize + 1) % n].clone() } else { None }, n)
+                        };
+                        if let Some(o) = other {
+                            o.send(SendKind::Terminate);
+                        }
+                        // (joining from inside the delivery of the source's end is the Reattach case and is
+                        // kept apart: see the known finding D9)
+                        if react == React::Switch && !m.is_terminal() {
+                            // a free probe (not this one) joins
+                            for k in 0..n {
+                                if k != me.id as usize && me.world.attach_if_free(k) {
+                                    break;
+                                }
+                            }
+                        }
+                    }
+                    React::Reattach => {
+                        me.world.attach_if_free(me.id as usize);
                     }
                     React::PullOther => {
                         // only while the other subscription is idle (nothing of its own on the stack), so
@@ -1189,14 +1252,22 @@ pub fn run(sc: &Scenario) -> History {
             })
             .collect();
     }
-    let attach = |s: usize| match (&built.root, &probes[s]) {
-        (Root::I(src), AnyProbe::I(p)) => src(Message::Handshake(p.sink())),
-        (Root::T1(src), AnyProbe::T1(p)) => src(Message::Handshake(p.sink())),
-        (Root::T2(src), AnyProbe::T2(p)) => src(Message::Handshake(p.sink())),
-        (Root::T3(src), AnyProbe::T3(p)) => src(Message::Handshake(p.sink())),
-        (Root::T12(src), AnyProbe::T12(p)) => src(Message::Handshake(p.sink())),
-        _ => unreachable!(),
+    let probes = Arc::new(probes);
+    let root = Arc::new(built.root);
+    let attach_arc: AttachHook = {
+        let probes = Arc::clone(&probes);
+        let root = Arc::clone(&root);
+        Arc::new(move |s: usize| match (&*root, &probes[s]) {
+            (Root::I(src), AnyProbe::I(p)) => src(Message::Handshake(p.sink())),
+            (Root::T1(src), AnyProbe::T1(p)) => src(Message::Handshake(p.sink())),
+            (Root::T2(src), AnyProbe::T2(p)) => src(Message::Handshake(p.sink())),
+            (Root::T3(src), AnyProbe::T3(p)) => src(Message::Handshake(p.sink())),
+            (Root::T12(src), AnyProbe::T12(p)) => src(Message::Handshake(p.sink())),
+            _ => unreachable!(),
+        })
     };
+    world.set_attach_hook(Some(Arc::clone(&attach_arc)));
+    let attach = |s: usize| attach_arc(s);
 
     let guarded = |world: &Arc<World>, k: usize, tag: u8, f: &dyn Fn()| -> bool {
         {
@@ -1241,7 +1312,7 @@ pub fn run(sc: &Scenario) -> History {
             }
             SinkKind::ForEach => guarded(&world, usize::MAX, 0, &|| {
                 let w = Arc::clone(&world);
-                let Root::I(src) = &built.root else { unreachable!() };
+                let Root::I(src) = &*root else { unreachable!() };
                 callbag::for_each(move |x: i64| {
                     w.call(CallKind::ForEachF, 0, vec![Val::I(x)], None);
                 })(tap(&world, 255, Arc::clone(src)));
